@@ -112,14 +112,29 @@ def setup(ctx):
     reach.watch_line_matching(orig, 'precision_correction = W', 'branch.burnup_large', occurrence=1)
     reach.watch_line_matching(orig, 'less than zero', 'branch.error_path')
     reach.watch(A.Sample.calculate_activation, 'Sample.calculate_activation')
-    reach.watch(A.Sample._accumulate, 'Sample._accumulate')
+    accumulate = getattr(A.Sample, '_accumulate', None)          # private helper: optional
+    if getattr(accumulate, '__code__', None) is not None:
+        reach.watch(accumulate, 'Sample._accumulate')
+    else:
+        ctx.count('anchor_missing.reach.Sample._accumulate')
+        ctx.note('Sample._accumulate not found (refactored source?): reach counter is evidence only, requirement '
+                 'waived; the abundance-weighted sums are judged through Sample.activity')
     _state['reach'] = reach
 
-    def activity_with_postcondition(isotope, mass, env, exposure, rest_times):
-        res = orig(isotope, mass, env, exposure, rest_times)
-        _post_activity(isotope, mass, env, exposure, rest_times, res)
+    NAMES = ('isotope', 'mass', 'env', 'exposure', 'rest_times')
+
+    def activity_with_postcondition(*args, **kw):
+        res = orig(*args, **kw)
+        # the arguments by position / documented name; a call of another form passes through un-judged
+        if len(args) > len(NAMES) or any(k not in NAMES[len(args):] for k in kw) or len(args) + len(kw) != len(NAMES):
+            _state['post']['unrecognised'] = _state['post'].get('unrecognised', 0) + 1
+            return res
+        vals = dict(zip(NAMES, args))
+        vals.update(kw)
+        _post_activity(vals['isotope'], vals['mass'], vals['env'], vals['exposure'], vals['rest_times'], res)
         return res
     activity_with_postcondition.__wrapped__ = orig
+    activity_with_postcondition.__doc__ = orig.__doc__
     A.activity = activity_with_postcondition     # Sample.calculate_activation goes through the module global
     _state['orig_activity'] = orig
     reach.start()
@@ -1034,9 +1049,16 @@ def check_sample(ctx, case):
         ctx.count('sample.forms.%s.%s' % (name, tag))
 
 
+# exception types that signal an accident inside the error path (e.g. a format string fed the wrong object),
+# as opposed to a deliberate refusal, whose type no clause of the property fixes
+ACCIDENT_TYPES = ('TypeError', 'NameError', 'UnboundLocalError', 'AttributeError', 'KeyError', 'IndexError',
+                  'ZeroDivisionError', 'AssertionError')
+
+
 def check_error_path(ctx, case):
     """The negative-activity error path (reached here with a non-physical negative mass) must end in the
-    RuntimeError it constructs, not in another exception raised while building the message."""
+    refusal it constructs (RuntimeError on the pinned tree; another deliberate exception type is counted and
+    accepted), not in an accident raised while building the message."""
     A, pt = _state['A'], _state['pt']
     iso = pt.elements[case['Z']][case['A']]
     _state['probe'] = True
@@ -1046,10 +1068,15 @@ def check_error_path(ctx, case):
             A.activity(iso, _lib_num(case, 'mass'), _lib_env(case), _lib_num(case, 'exposure'), _lib_rest(case))
         except RuntimeError:
             ctx.count('errorpath.raised_RuntimeError')
+            ctx.count('errorpath.refused')
         except Exception as exc:
-            ctx.violation('negative-activity error path of activity(%s, mass=%r) raised %s: %s instead of RuntimeError'
-                          % (iso, case['mass'], type(exc).__name__, exc), kind='error-path',
-                          exc_type=type(exc).__name__, exc_msg=str(exc)[:200])
+            if type(exc).__name__ in ACCIDENT_TYPES:
+                ctx.violation('negative-activity error path of activity(%s, mass=%r) raised %s: %s instead of a '
+                              'refusal (RuntimeError)' % (iso, case['mass'], type(exc).__name__, exc), kind='error-path',
+                              exc_type=type(exc).__name__, exc_msg=str(exc)[:200])
+            else:
+                ctx.count('errorpath.raised_' + type(exc).__name__)
+                ctx.count('errorpath.refused')
         else:
             ctx.count('errorpath.returned')
     finally:
@@ -1070,11 +1097,21 @@ def finish(ctx):
     ctx.count('contract.activity.postcondition_evaluations', post['calls'])
     ctx.count('postcondition.activity.values_checked', post['values'])
     ctx.count('postcondition.activity.decay_pairs_checked', post.get('decay_pairs', 0))
+    ctx.count('contract.activity.unrecognised_call', post.get('unrecognised', 0))
+    if not ctx.counters.get('reach.branch.error_path') and ctx.counters.get('errorpath.refused'):
+        # the line anchor did not fire (message reworded / moved) but the public behaviour shows the path was taken
+        ctx.count('anchor_missing.reach.branch.error_path')
+        ctx.note('the negative-activity refusal was observed %d times through the public call; the source-line '
+                 'counter on it did not fire and is waived' % ctx.counters.get('errorpath.refused'))
     for label, why in (('branch.b', "'b' branch of activity()"), ('branch.2n', "'2n' branch of activity()"),
                        ('branch.burnup_small', 'burn-up small-argument branch'),
                        ('branch.burnup_large', 'burn-up large-argument branch'),
                        ('branch.error_path', 'negative-activity error path')):
         ctx.require('reach.' + label, 1, why + ' must be reached by the workload')
+    # the same four branches as the reference sees them (public behaviour; stands when the line anchors are waived)
+    for br, why in (('b', "'b' rows"), ('2n', "'2n' rows"), ('small', 'burn-up rows with both arguments below 1e-10'),
+                    ('large', 'burn-up rows with larger arguments')):
+        ctx.require('evaluated.branch.' + br, 1, why + ' must have been compared with their chain solution')
     ctx.require('rows.evaluated_against_reference', len(_state['T'].rows),
                 'every reaction row of activation.dat must be compared with its chain solution')
     ctx.require('postcondition.activity.calls', 1, 'the postcondition on activation.activity must have been evaluated')
@@ -1091,19 +1128,18 @@ def finish(ctx):
 def classify(rec):
     d = rec.get('detail') or {}
     kind = d.get('kind')
+    # public symptoms only: the class of the exception (accident vs refusal), never its wording
     if kind == 'error-path':
-        if d.get('exc_type') == 'TypeError' and 'real number' in (d.get('exc_msg') or ''):
+        if d.get('exc_type') in ACCIDENT_TYPES:
             return 'c14.negative-activity-error-path'
         return None
     if kind == 'exception':
         # physical inputs reach the error path only through a negative value of the small-argument formula
         if not d.get('small_negative_rows'):
             return None
-        if d.get('exc_type') == 'TypeError' and 'real number' in (d.get('exc_msg') or ''):
+        if d.get('exc_type') in ACCIDENT_TYPES:
             return 'c14.negative-activity-error-path'
-        if d.get('exc_type') == 'RuntimeError' and 'less than zero' in (d.get('exc_msg') or ''):
-            return 'c14.burnup-small-argument'
-        return None
+        return 'c14.burnup-small-argument'
     if kind in ('mismatch', 'sample-mismatch', 'post-negative', 'exposure-bound', 'mass-proportionality'):
         evs = d.get('evals') or []
         if not evs:
